@@ -5,24 +5,30 @@
    pkg/southbound/gnmi/conn_manager.go: Connect starts one goroutine per target that follows the state of the gRPC
    channel and adds / removes the Conn (id = fresh UUID) of the target.  Model: Model/ConnMgr.v - the manager as a state
    machine whose events are Connect, Disconnect and [ESample g s] = goroutine g reads state s of its channel; outputs
-   [Added g t id] / [Removed g t id] are what the manager's Watch delivers.  [run n0 es] is conn_manager.go as it is,
-   [run_fixed n0 es] the same with the proposed repair fixes/CONN-1.patch; [run_from fx m es] continues from m
-   (fx = false: as it is, fx = true: repaired); n0 is the first connection id (ids are a counter: fresh, as UUIDs are).
+   [Added g t id] / [Removed g t id] are what the manager's Watch delivers.  [run n0 es] = [run_from current (init n0) es]
+   is conn_manager.go as it is (/repo ac94f55 and later: the Conn is removed on every state but READY, IDLE included);
+   [run_before_repair] is the loop before ac94f55 (IDLE left the Conn alone) and appears only in the regression theorem;
+   theorems stated with [fx] hold for both.  n0 is the first connection id (ids are a counter: fresh, as UUIDs are).
 
    What the protocol theorems need from the manager (the contract), and where it is proved:
    (i)   whenever the channel of a target is lost and READY again, the old connection is Removed before a new one is
          Added, and the new one has a new id:
-         - C10_conn_seen_loss_replaces: for EVERY event sequence, if between two READY samples the goroutine read at
-           least one state that it takes for a loss ([loss_seen]: anything but READY, and - as the code is - but IDLE)
-           and did not read SHUTDOWN, the connection it had is Removed and it ends with a new, larger id;
+         - C10_conn_seen_loss_replaces (the main loss theorem, current code): for EVERY event sequence, if between two
+           READY samples the goroutine read at least ONE state other than READY ([loss_seen current]) and did not read
+           SHUTDOWN, the connection it had is Removed and it ends with a new, larger id.  After a lost transport the
+           channel stays IDLE until somebody asks it to connect - the goroutine itself, when it reads IDLE, or an RPC
+           issued on the idle channel - so reading nothing is only possible in the second case;
          - C10_conn_channel_loss_replaces: in particular when the goroutine reads EVERY state of a channel that follows
            gRPC's transitions ([chan_ok]: READY can only be left through IDLE, and READY only be entered from CONNECTING);
-         - C10_conn_skipped_connecting_refuted: WITHOUT that assumption the contract does not hold for the code as it is:
-           the channel goes READY IDLE CONNECTING READY, the goroutine reads READY IDLE READY (GetState after
-           WaitForStateChange returns the state of that moment; a re-dial that completes before the read hides
-           CONNECTING): nothing is Removed, the old id lives on.  Reproduced on the real manager (finding F-CONN-1);
-         - C10_conn_fixed_seen_loss_replaces: with CONN-1 every non-READY sample counts, so reading IDLE is enough (the
-           goroutine itself has to answer IDLE with Connect() before the channel re-dials, unless an RPC does it);
+         - C10_conn_unread_loss_refuted: what is NOT covered - this is the honest limit of a loop that samples the
+           state: WITHOUT any assumption on the samples the contract does not hold; the channel goes READY IDLE
+           CONNECTING READY and the goroutine reads READY READY (it was not scheduled in between and an RPC re-dialled
+           the idle channel): nothing is Removed.  C10_conn_seen_loss_replaces is the partial theorem under the negation
+           of that shape.  Not observed on the real manager (0 of 4000 at-once restarts of 800 concurrent managers);
+         - C10_conn_skipped_connecting_before_repair: regression for finding F-CONN-1, fixed by /repo ac94f55: the loop
+           before the repair kept the old connection on the samples READY IDLE READY (a re-dial that completes before
+           the goroutine reads the state again hides CONNECTING; reproduced on the real manager, about 1 % of 800
+           concurrent at-once restarts); C10_conn_repair_covers_the_witness: the code as it is Removes and Adds on them;
    (ii)  ids are never reused: C10_conn_ids_never_reused, C10_conn_ids_increasing;
    (iii) at most one live connection per Connect: C10_conn_one_live_per_connect (the Added / Removed outputs of a
          goroutine alternate and each Removed is of the id Added last), C10_conn_get_is_live (Get answers exactly for
@@ -49,43 +55,44 @@ Module CP := OC.Proofs.ConnMgrProofs.
 Module CE := OC.Proofs.ConnMgrEx.
 Open Scope N_scope.
 
-Theorem C10_conn_seen_loss_replaces : forall fx n0 es1 g go id1 es2,
-  let m := fst (CM.run_from fx (CM.init n0) es1) in
+Theorem C10_conn_seen_loss_replaces : forall n0 es1 g go id1 es2,
+  let m := fst (CM.run_from CM.current (CM.init n0) es1) in
   nth_error (CM.m_gors m) g = Some go -> CM.g_conn go = Some id1 ->
-  existsb (CM.loss_seen fx) (CM.samples_of g es2) = true -> ~ In CM.Shutdown (CM.samples_of g es2) ->
-  In (CM.Removed g (CM.g_target go) id1) (snd (CM.run_from fx m (es2 ++ [CM.ESample g CM.Ready]))) /\
-  exists id2, CP.gconn (fst (CM.run_from fx m (es2 ++ [CM.ESample g CM.Ready]))) g = Some id2 /\ id1 < id2.
-Proof. exact CP.seen_loss_replaces_run. Qed.
+  existsb (CM.loss_seen CM.current) (CM.samples_of g es2) = true -> ~ In CM.Shutdown (CM.samples_of g es2) ->
+  In (CM.Removed g (CM.g_target go) id1) (snd (CM.run_from CM.current m (es2 ++ [CM.ESample g CM.Ready]))) /\
+  exists id2, CP.gconn (fst (CM.run_from CM.current m (es2 ++ [CM.ESample g CM.Ready]))) g = Some id2 /\ id1 < id2.
+Proof. exact (CP.seen_loss_replaces_run CM.current). Qed.
 
 Theorem C10_conn_channel_loss_replaces : forall n0 es1 g go id1 es2,
-  let m := fst (CM.run_from false (CM.init n0) es1) in
+  let m := fst (CM.run_from CM.current (CM.init n0) es1) in
   nth_error (CM.m_gors m) g = Some go -> CM.g_conn go = Some id1 ->
   CM.samples_of g es2 <> [] -> CM.chan_ok (CM.Ready :: CM.samples_of g es2 ++ [CM.Ready]) = true ->
-  In (CM.Removed g (CM.g_target go) id1) (snd (CM.run_from false m (es2 ++ [CM.ESample g CM.Ready]))) /\
-  exists id2, CP.gconn (fst (CM.run_from false m (es2 ++ [CM.ESample g CM.Ready]))) g = Some id2 /\ id1 < id2.
-Proof. exact CP.channel_loss_replaces_run. Qed.
+  In (CM.Removed g (CM.g_target go) id1) (snd (CM.run_from CM.current m (es2 ++ [CM.ESample g CM.Ready]))) /\
+  exists id2, CP.gconn (fst (CM.run_from CM.current m (es2 ++ [CM.ESample g CM.Ready]))) g = Some id2 /\ id1 < id2.
+Proof. exact (CP.channel_loss_replaces_run CM.current). Qed.
 
-Theorem C10_conn_skipped_connecting_refuted :
+Theorem C10_conn_unread_loss_refuted :
   exists (cs ss l1 mid l2 : list CM.chan_state),
     CM.chan_ok cs = true /\ CM.sampled cs ss = true /\
     cs = l1 ++ CM.Ready :: mid ++ CM.Ready :: l2 /\ mid <> [] /\ l2 = [] /\ last ss CM.Idle = CM.Ready /\
     CM.added_ids (snd (CM.run 1 (CM.EConnect 7 :: map (CM.ESample 0) ss))) = [1] /\
     (forall g t id, ~ In (CM.Removed g t id) (snd (CM.run 1 (CM.EConnect 7 :: map (CM.ESample 0) ss)))) /\
     CM.get (fst (CM.run 1 (CM.EConnect 7 :: map (CM.ESample 0) ss))) 1 = Some 7.
-Proof. exact CE.skipped_connecting_refuted. Qed.
+Proof. exact CE.unread_loss_refuted. Qed.
 
-Theorem C10_conn_fixed_seen_loss_replaces : forall n0 es1 g go id1 es2,
-  let m := fst (CM.run_from true (CM.init n0) es1) in
-  nth_error (CM.m_gors m) g = Some go -> CM.g_conn go = Some id1 ->
-  existsb (CM.loss_seen true) (CM.samples_of g es2) = true -> ~ In CM.Shutdown (CM.samples_of g es2) ->
-  In (CM.Removed g (CM.g_target go) id1) (snd (CM.run_from true m (es2 ++ [CM.ESample g CM.Ready]))) /\
-  exists id2, CP.gconn (fst (CM.run_from true m (es2 ++ [CM.ESample g CM.Ready]))) g = Some id2 /\ id1 < id2.
-Proof. exact (CP.seen_loss_replaces_run true). Qed.
+Theorem C10_conn_skipped_connecting_before_repair :
+  exists (cs ss l1 mid l2 : list CM.chan_state),
+    CM.chan_ok cs = true /\ CM.sampled cs ss = true /\
+    cs = l1 ++ CM.Ready :: mid ++ CM.Ready :: l2 /\ mid <> [] /\ l2 = [] /\ last ss CM.Idle = CM.Ready /\
+    CM.added_ids (snd (CM.run_before_repair 1 (CM.EConnect 7 :: map (CM.ESample 0) ss))) = [1] /\
+    (forall g t id, ~ In (CM.Removed g t id) (snd (CM.run_before_repair 1 (CM.EConnect 7 :: map (CM.ESample 0) ss)))) /\
+    CM.get (fst (CM.run_before_repair 1 (CM.EConnect 7 :: map (CM.ESample 0) ss))) 1 = Some 7.
+Proof. exact CE.skipped_connecting_refuted_before_repair. Qed.
 
-Theorem C10_conn_fixed_repairs_the_witness :
-  snd (CM.run_fixed 1 CE.ex_skip) = [CM.Added 0 7 1; CM.Removed 0 7 1; CM.CallConnect 0; CM.Added 0 7 2] /\
-  CP.gconn (fst (CM.run_fixed 1 CE.ex_skip)) 0 = Some 2 /\ CM.get (fst (CM.run_fixed 1 CE.ex_skip)) 1 = None.
-Proof. exact CE.skipped_connecting_fixed. Qed.
+Theorem C10_conn_repair_covers_the_witness :
+  snd (CM.run 1 CE.ex_skip) = [CM.Added 0 7 1; CM.Removed 0 7 1; CM.CallConnect 0; CM.Added 0 7 2] /\
+  CP.gconn (fst (CM.run 1 CE.ex_skip)) 0 = Some 2 /\ CM.get (fst (CM.run 1 CE.ex_skip)) 1 = None.
+Proof. exact CE.skipped_connecting_now. Qed.
 
 Theorem C10_conn_ids_never_reused : forall fx n0 es, NoDup (CM.added_ids (snd (CM.run_from fx (CM.init n0) es))).
 Proof. exact CP.ids_never_reused. Qed.
@@ -147,9 +154,9 @@ End C10_conn.
 
 Print Assumptions C10_conn_seen_loss_replaces.
 Print Assumptions C10_conn_channel_loss_replaces.
-Print Assumptions C10_conn_skipped_connecting_refuted.
-Print Assumptions C10_conn_fixed_seen_loss_replaces.
-Print Assumptions C10_conn_fixed_repairs_the_witness.
+Print Assumptions C10_conn_unread_loss_refuted.
+Print Assumptions C10_conn_skipped_connecting_before_repair.
+Print Assumptions C10_conn_repair_covers_the_witness.
 Print Assumptions C10_conn_ids_never_reused.
 Print Assumptions C10_conn_ids_increasing.
 Print Assumptions C10_conn_one_live_per_connect.
